@@ -2,6 +2,7 @@ import TexelVerif.TB.Check
 import TexelVerif.TB.GameLemmas
 import TexelVerif.TB.IndexLemmas
 import TexelVerif.TB.Abort
+import TexelVerif.TB.RetroBridge
 /-!
 # C12 — on-demand endgame tables hold the exact distance to mate
 
@@ -58,6 +59,99 @@ theorem legal_closed (cls : Cls) (p q : Pos) (hq : q ∈ (game cls.cc).moves p) 
 example : ∃ (G : Game (Fin 3)) (T : Fin 3 → Val), (∀ p, T p = expected G T p) ∧ T 0 = .win 1 ∧ T 1 = .loss 0 ∧ T 2 = .draw :=
   ⟨{ moves := fun p => if p = 0 then [1] else [], inCheck := fun p => p = 1 },
    fun p => if p = 0 then .win 1 else if p = 1 then .loss 0 else .draw, by decide, rfl, rfl, rfl⟩
+
+/-! ## 1b. The retrograde generator itself
+
+`TB/Retro.lean` is `TBGenerator::generate` (tbgen.cpp:481-612) over the interface it uses of `TBPosition` (an index
+graph `IG`: number of indices, `indexValid`, `canTakeKing`, `getMoves`, `getUnMoves`, `swapSide`): the same four
+phases, the same in-place table with the same cell encoding, the `newMated`/`oldMated` block flags and the
+`idx += 63; continue;` skip, the adjacent-duplicate skip on the sorted move lists, the REMAINING counters.
+`TB/RetroChess.lean` instantiates it with transcriptions of `getMoves` / `getUnMoves` on `TBIndex` words. -/
+
+open TB.Retro in
+/-- **retrograde_terminates.**  For every material class the generator's loop `for (n = 1; ; n++)` is left through
+    `if (modified == 0) break;` (every scan that modifies something computes at least one more entry). -/
+theorem retrograde_terminates (cls : Cls) : (generate (igOf cls.cc)).finished = true :=
+  generate_finished (igOf_h64 cls.cc (by simp only [Cls.cc]; omega))
+
+open TB.Retro in
+/-- the same for every index graph whose size is a multiple of 64 (the flag arrays have `nPos / 64` entries) -/
+theorem retrograde_terminates_abstract (G : IG) (h64 : G.nPos % 64 = 0) : (generate G).finished = true :=
+  generate_finished h64
+
+open TB.Retro in
+/-- **retrograde_local_rule.**  Let `G` be an index graph satisfying the obligations `OK` — chiefly: on the legal
+    indices `getUnMoves` is the converse of `getMoves` — whose generation needs at most 63 scans (so that no
+    MATE_IN / MATED_IN value leaves its byte range).  Then the generated table has `nPos` entries, holds INVALID at
+    every invalid index, MATE_IN_0 at every index whose side to move can take the king, and at every legal index a
+    game value that satisfies the certificate checker's local rule `Cert.expected` over the legal successor indices;
+    all cells are in `-1 … 126`, i.e. the `Int` cells are the `S8` cells of the C++. -/
+theorem retrograde_local_rule (G : IG) (hG : OK G) (hp : (generate G).passes ≤ 63) :
+    (generate G).tab.size = G.nPos ∧
+    ∀ i, i < G.nPos →
+      (G.valid i = false → rd (generate G).tab i = -1) ∧
+      (G.valid i = true → G.takeK i = true → rd (generate G).tab i = 64) ∧
+      (legalI G i → ∃ v, decodeS (rd (generate G).tab i) = some v ∧
+        v = expected (gameI G) (valT (generate G).tab) i) ∧
+      (-1 ≤ rd (generate G).tab i ∧ rd (generate G).tab i ≤ 126) :=
+  generate_spec hG hp
+
+open TB.Retro in
+/-- **retrograde_exact.**  Under the same hypotheses the cell of every legal index decodes to the exact distance to
+    mate of the game "legal index ↦ its successor indices that are not king captures; in check = the index with the
+    other side to move is a king capture". -/
+theorem retrograde_exact (G : IG) (hG : OK G) (hp : (generate G).passes ≤ 63) (i : Nat) (hi : legalI G i) :
+    decodeS (rd (generate G).tab i) = some (DTM (gameI G) i) :=
+  generate_exact hG hp i hi
+
+open TB.Retro in
+/-- **retrograde_exact_partial.**  For a material class: if the executable check of the obligations `OK (igOf c)`
+    (`okCheckCached` or `okCheckDirect`: index ranges, and *getUnMoves is the converse of getMoves on all legal
+    indices* — un-captures by either king included) and the executable check `homCheck` (every legal position has a
+    legal index; its legal successors are mapped onto the index's non-king-capture successors; "in check" agrees)
+    evaluate to `true`, and the run needs at most 63 scans, then the bytes of the table the generator model produces
+    are accepted by the certificate checker — hence (`certificate_sound_table`) hold the exact distance to mate of
+    **every** legal position of the class at the index Texel's mapping assigns to it.
+
+    Full-strength statement `retrograde_exact_chess` (not proved): the same conclusion for every class of at most four
+    men without the three hypotheses.  Missing: a proof, once and for all classes, that `okCheck…` and `homCheck`
+    hold (a symmetry / canonisation argument about `TBIndex`) and that no 4-man distance exceeds 62.  Instead the
+    compiled driver *evaluates* the two proven-sound checks per class on every run (all 2- and 3-man classes in the
+    quick tier; 4-man classes in the thorough tier) and reports the number of scans; the tie to the C++ is the
+    byte-for-byte comparison of the model's table with the real `TBGenerator` table and the complete comparison of
+    `getMoves` / `getUnMoves` with their transcriptions. -/
+theorem retrograde_exact_partial (cls : Cls)
+    (hok : okCheckCached (igOf cls.cc) = true ∨ okCheckDirect (igOf cls.cc) = true)
+    (hhom : homCheck cls.cc = true) (hp : (generate (igOf cls.cc)).passes ≤ 63) :
+    checkTable cls.cc cls.cc.shape (bytes (generate (igOf cls.cc)).tab) = true ∧
+    ∀ p, legal cls.cc p = true →
+      ∃ i, indexOf cls.cc.shape p = some i ∧ i < (bytes (generate (igOf cls.cc)).tab).size ∧
+        decodeByte (readByte (bytes (generate (igOf cls.cc)).tab) i) = some (DTM (game cls.cc) p) := by
+  have hs := igOf_sorted cls.cc
+  have hG : OK (igOf cls.cc) := by
+    rcases hok with h | h
+    · exact okCheckCached_sound _ hs.1 hs.2 h
+    · exact okCheckDirect_sound _ hs.1 hs.2 h
+  have hn2 : 2 ≤ cls.cc.n := by simp only [Cls.cc]; omega
+  have hT := retro_checkTable cls.cc hn2 hG hhom hp
+  exact ⟨hT, (certificate_sound_table cls _ hT).2⟩
+
+open TB.Retro in
+/-- the obligations are exactly what the un-move generator must satisfy: a generator that drops a predecessor (here
+    the toy graph without the un-move 1 ↦ 0) fails the executable check — and then the table is wrong: index 0,
+    a mate in 1, is left a draw -/
+theorem retrograde_needs_converse :
+    okCheckDirect { toy with unmoves := fun _ => [] } = false ∧
+    decodeS (rd (generate { toy with unmoves := fun _ => [] }).tab 0) = some .draw ∧
+    decodeS (rd (generate toy).tab 0) = some (.win 1) := by decide +kernel
+
+open TB.Retro in
+/-- the hypotheses of `retrograde_local_rule` / `retrograde_exact` are satisfiable (toy graph: 0 → 1, 1 checkmated,
+    2 stalemated), and the run gives win 1 / loss 0 / draw -/
+example : OK toy ∧ (generate toy).passes ≤ 63 ∧
+    (generate toy).tab.toList.take 5 = [65, 63, 0, 64, -1] :=
+  ⟨okCheckDirect_sound toy (by intro i; simp only [toy]; split <;> simp) (by intro i; simp only [toy]; split <;> simp)
+    (by decide), by decide +kernel, by decide +kernel⟩
 
 /-! ## 2. What `probeDTM` returns -/
 
